@@ -29,6 +29,8 @@ def _cost(e):
     c = 0
     if e["csill"] > 0 and e["nvar"] > 1:
         c += 100 * len(e["types"])
+    if e["entry"] == "optim" and e["recipe"] == "linear":
+        c += 1000
     if e["entry"] == "vmap":
         c += 20
     if e["ndim"] == 3:
@@ -184,6 +186,15 @@ def describe(req, out, fails):
 
 def run(tier):
     ck = Check("C17", "model_checking", tier)
+    try:
+        return _run(ck, tier)
+    except Broken:
+        import shutil
+        shutil.rmtree(ck.work, ignore_errors=True)
+        raise
+
+
+def _run(ck, tier):
     vlib.build_lib()
     exe = vlib.build_harness("fit_run")
     # 1. the request space
